@@ -139,7 +139,9 @@ var confirmedFuncs = map[string]map[string]bool{
 		"!Skip"),
 	"anyutil":                  set("MarshalFrom", "New", "Unpack"),
 	// support/timepb is not normalised: its rules interpret calls of package functions themselves
-	"rapidproto":               set("GeneratorOptions.WithAnyTypes", "GeneratorOptions.WithDisallowNil", "GeneratorOptions.WithInterfaceHint", "GeneratorOptions.genAny", "GeneratorOptions.genDuration", "GeneratorOptions.genFieldMask", "GeneratorOptions.genScalarFieldValue", "GeneratorOptions.genTimestamp", "GeneratorOptions.setFieldValue", "GeneratorOptions.setFields", "MessageGenerator", "setSecondsNanosFields"),
+	"rapidproto":               set("GeneratorOptions.WithAnyTypes", "GeneratorOptions.WithDisallowNil", "GeneratorOptions.WithInterfaceHint", "GeneratorOptions.genAny", "GeneratorOptions.genDuration", "GeneratorOptions.genFieldMask", "GeneratorOptions.genScalarFieldValue", "GeneratorOptions.genTimestamp", "GeneratorOptions.setFieldValue", "GeneratorOptions.setFields", "MessageGenerator", "setSecondsNanosFields",
+		// the same generators as plain functions (a receiver that is not used may be dropped)
+		"genAny", "genDuration", "genFieldMask", "genScalarFieldValue", "genTimestamp", "setFieldValue", "setFields"),
 	"cmd/protoc-gen-go-pulsar": set("ObjectSet.Set", "ObjectSet.String", "generateAllFiles", "main", "rewriteMessageField"),
 	"generator":                set("GeneratedFile.FieldGoType", "GeneratedFile.Ident", "GeneratedFile.IsLocalMessage", "Generator.GenerateFile", "KeySize", "NewGenerator", "ProtoWireType", "RegisterFeature", "findFeatures"),
 }
